@@ -61,6 +61,8 @@ type Builder struct {
 	// Groups are the *jen.Group values handed to ...Func callbacks, in order.
 	Groups []*jen.Group
 	refs   map[int]jen.Code
+	depth  int
+	after  []func() // run when the outermost statement being built is complete
 }
 
 // Callback records how often a user callback ran, and whether it ran before
@@ -197,6 +199,8 @@ func (b *Builder) dict(n *Node) jen.Dict {
 func (b *Builder) Stmt(n *Node) *jen.Statement {
 	// a statement with room to grow (a caller may well allocate one like this): appends then write into
 	// the existing backing array, so storage shared by mistake between two statements shows at once
+	b.depth++
+	defer b.leave()
 	st := make(jen.Statement, 0, 16)
 	s := &st
 	k := cloneAt(n.Calls)
@@ -217,6 +221,22 @@ func (b *Builder) Stmt(n *Node) *jen.Statement {
 	return real
 }
 
+// leave ends one level of statement building; at the outermost level what was put off until the statement
+// is complete happens.
+func (b *Builder) leave() {
+	b.depth--
+	if b.depth > 0 {
+		return
+	}
+	for len(b.after) > 0 {
+		todo := b.after
+		b.after = nil
+		for _, f := range todo {
+			f()
+		}
+	}
+}
+
 // Partial builds the statement of n with its first k calls only and returns it together with a function
 // that applies the remaining calls to the same object (a caller that keeps a statement in a variable,
 // hands it on, and finishes it later).
@@ -226,8 +246,14 @@ func (b *Builder) Partial(n *Node, k int) (*jen.Statement, func()) {
 	if k > len(n.Calls) {
 		k = len(n.Calls)
 	}
+	b.depth++
 	b.applyUpTo(s, n.Calls, 0, k)
-	return s, func() { b.applyUpTo(s, n.Calls, k, len(n.Calls)) }
+	b.depth--
+	return s, func() {
+		b.depth++
+		defer b.leave()
+		b.applyUpTo(s, n.Calls, k, len(n.Calls))
+	}
 }
 
 // NoCloneForm switches the clone form of Stmt off (for checks that count the items of a statement).
@@ -419,6 +445,8 @@ func (b *Builder) invoke(fn reflect.Value, name string, c *Call) []reflect.Value
 	t := fn.Type()
 	var args []reflect.Value
 	var cbs []*Callback
+	var spread []jen.Code
+	var post []func() // run once the constructing call has returned
 	str := 0
 	item := 0
 	for i := 0; i < t.NumIn(); i++ {
@@ -426,12 +454,49 @@ func (b *Builder) invoke(fn reflect.Value, name string, c *Call) []reflect.Value
 		variadic := t.IsVariadic() && i == t.NumIn()-1
 		switch {
 		case variadic && pt.Elem() == codeType:
+			// the items are handed over as the caller's own slice (items...), one with room to grow
+			spread = make([]jen.Code, 0, len(c.Items)-item+4)
 			for ; item < len(c.Items); item++ {
-				args = append(args, b.codeValue(c.Items[item]))
+				spread = append(spread, b.Code(c.Items[item]))
 			}
+			args = append(args, reflect.ValueOf(spread))
 		case variadic && pt.Elem().Kind() == reflect.Interface: // Commentf(format, a...)
-			for _, a := range c.Args {
-				args = append(args, reflect.ValueOf(a.Go()))
+			raw := make([]interface{}, len(c.Args))
+			for i, a := range c.Args {
+				raw[i] = a.Go()
+			}
+			if b.Forms != nil && len(raw) > 0 && len(c.Str) > 0 && b.Forms.Choose(2) == 1 {
+				// operands that format themselves (fmt.Formatter): user code that runs when the text is
+				// formatted, which is inside the constructing call. Used only where a dry run shows that fmt
+				// gives the very text it gives for the plain operands, formatting each operand once.
+				probe := make([]interface{}, len(raw))
+				live := make([]interface{}, len(raw))
+				var ocbs []*Callback
+				for i := range raw {
+					probe[i] = &operand{v: raw[i], cb: &Callback{}}
+					ocb := &Callback{Fn: name + " operand"}
+					ocbs = append(ocbs, ocb)
+					live[i] = &operand{v: raw[i], cb: ocb}
+				}
+				same := fmt.Sprintf(string(c.Str[0]), raw...) == fmt.Sprintf(string(c.Str[0]), probe...)
+				for _, p := range probe {
+					if p.(*operand).cb.Runs != 1 {
+						same = false
+					}
+				}
+				if same {
+					b.NonBaseline++
+					b.Callbacks = append(b.Callbacks, ocbs...)
+					cbs = append(cbs, ocbs...)
+					raw = live
+				}
+			}
+			for _, a := range raw {
+				if a == nil {
+					args = append(args, reflect.Zero(pt.Elem()))
+				} else {
+					args = append(args, reflect.ValueOf(a))
+				}
 			}
 		case variadic && pt.Elem().Kind() == reflect.String: // File.Anon — not used through here
 			for ; str < len(c.Str); str++ {
@@ -479,16 +544,61 @@ func (b *Builder) invoke(fn reflect.Value, name string, c *Call) []reflect.Value
 		case pt.Kind() == reflect.Func:
 			cb := b.newCallback(name)
 			cbs = append(cbs, cb)
-			args = append(args, b.callback(pt, cb, c))
+			args = append(args, b.callback(pt, cb, c, &post))
 		default:
 			panic(fmt.Sprintf("recipe: %s: unsupported parameter type %v", name, pt))
 		}
 	}
-	out := fn.Call(args)
+	if spread == nil {
+		out := fn.Call(args)
+		for _, cb := range cbs {
+			cb.Returned = true
+		}
+		for _, f := range post {
+			f()
+		}
+		return out
+	}
+	// A caller may pass one slice to several calls. Another statement is built from the same arguments
+	// before this one and a third after the whole top-level statement is complete; each of the two also gets
+	// tokens of its own. Neither is ever rendered, and neither is any business of the statement built here.
+	decoy, hasDecoy := Funcs[name]
+	hasDecoy = hasDecoy && len(cbs) == 0 && !NoSpreadDecoys && reflect.TypeOf(decoy) == fn.Type()
+	if hasDecoy {
+		d := reflect.ValueOf(decoy).CallSlice(args)[0].Interface().(*jen.Statement)
+		d.Id("ZZDECOY3").Op("+").Lit(434343)
+	}
+	out := fn.CallSlice(args)
 	for _, cb := range cbs {
 		cb.Returned = true
 	}
+	if hasDecoy {
+		b.after = append(b.after, func() {
+			d := reflect.ValueOf(decoy).CallSlice(args)[0].Interface().(*jen.Statement)
+			d.Id("ZZDECOY4").Op("-").Lit(444444)
+		})
+	}
 	return out
+}
+
+// NoSpreadDecoys switches the extra statements built from a call's argument slice off.
+var NoSpreadDecoys bool
+
+// operand is a Commentf operand that formats itself: the value it stands for while the constructing call
+// runs, another text afterwards.
+type operand struct {
+	v  interface{}
+	cb *Callback
+}
+
+func (o *operand) Format(st fmt.State, verb rune) {
+	late := o.cb.Returned
+	o.cb.hit()
+	if late {
+		fmt.Fprintf(st, "%"+string(verb), "ZZLATE")
+		return
+	}
+	fmt.Fprintf(st, "%"+string(verb), o.v)
 }
 
 func (b *Builder) codeValue(n *Node) reflect.Value {
@@ -501,10 +611,23 @@ func (b *Builder) codeValue(n *Node) reflect.Value {
 	return v
 }
 
-func (b *Builder) callback(pt reflect.Type, cb *Callback, c *Call) reflect.Value {
+func (b *Builder) callback(pt reflect.Type, cb *Callback, c *Call, post *[]func()) reflect.Value {
 	switch {
 	case pt.NumIn() == 1 && pt.In(0) == groupType: // func(*Group)
-		return reflect.ValueOf(func(g *jen.Group) { cb.hit(); b.Groups = append(b.Groups, g); b.fillGroup(g, c.Items) })
+		return reflect.ValueOf(func(g *jen.Group) {
+			cb.hit()
+			b.Groups = append(b.Groups, g)
+			k := len(c.Items)
+			if b.Forms != nil && k > 0 && !NoCloneForm && b.Forms.Choose(6) == 3 {
+				// the caller keeps the group it was handed and goes on adding to it after the ...Func call has
+				// returned (helpers that collect into a block): the group in the statement is that group
+				k = b.Forms.Choose(k)
+				rest := c.Items[k:]
+				b.NonBaseline++
+				*post = append(*post, func() { b.fillGroup(g, rest) })
+			}
+			b.fillGroup(g, c.Items[:k])
+		})
 	case pt.NumIn() == 1 && pt.In(0) == stmtType: // Do(func(*Statement))
 		return reflect.ValueOf(func(s *jen.Statement) {
 			cb.hit()
@@ -515,11 +638,34 @@ func (b *Builder) callback(pt reflect.Type, cb *Callback, c *Call) reflect.Value
 	case pt.NumIn() == 0 && pt.NumOut() == 1:
 		switch pt.Out(0).Kind() {
 		case reflect.Interface:
-			return reflect.ValueOf(func() interface{} { cb.hit(); return c.Val.Go() })
+			// (a callback that runs after the constructing call has returned — the value is wanted at build
+			// time — answers with something else: generator state moves on)
+			return reflect.ValueOf(func() interface{} {
+				late := cb.Returned
+				cb.hit()
+				if late {
+					return "ZZLATE"
+				}
+				return c.Val.Go()
+			})
 		case reflect.Int32:
-			return reflect.ValueOf(func() rune { cb.hit(); return c.Val.Go().(rune) })
+			return reflect.ValueOf(func() rune {
+				late := cb.Returned
+				cb.hit()
+				if late {
+					return c.Val.Go().(rune) ^ 0x5A
+				}
+				return c.Val.Go().(rune)
+			})
 		case reflect.Uint8:
-			return reflect.ValueOf(func() byte { cb.hit(); return c.Val.Go().(byte) })
+			return reflect.ValueOf(func() byte {
+				late := cb.Returned
+				cb.hit()
+				if late {
+					return ^c.Val.Go().(byte)
+				}
+				return c.Val.Go().(byte)
+			})
 		}
 	}
 	panic(fmt.Sprintf("recipe: unsupported callback type %v", pt))
@@ -555,6 +701,8 @@ func (b *Builder) File(fr *File) *jen.File {
 
 // AddToFile adds one body item to a file (through the embedded *Group).
 func (b *Builder) AddToFile(f *jen.File, n *Node) {
+	b.depth++
+	defer b.leave()
 	if b.Forms != nil && n != nil && n.Kind == KStmt && n.Ref == 0 && len(n.Calls) > 0 && n.Calls[0].Fn != "Add" && n.Calls[0].Fn != "Do" && b.Forms.Choose(2) == 1 {
 		first := &n.Calls[0]
 		if m, ok := methodOf(reflect.ValueOf(f.Group), first.Fn); ok {
@@ -644,6 +792,8 @@ func BuildFile(f *File) *jen.File { return (&Builder{}).File(f) }
 
 // CallFunc performs call c through the package-level function `name`.
 func (b *Builder) CallFunc(name string, c *Call) *jen.Statement {
+	b.depth++
+	defer b.leave()
 	f, ok := Funcs[name]
 	if !ok {
 		panic("recipe: no package function " + name)
@@ -653,6 +803,8 @@ func (b *Builder) CallFunc(name string, c *Call) *jen.Statement {
 
 // CallMethod performs call c through the *Statement method `name` of s.
 func (b *Builder) CallMethod(s *jen.Statement, name string, c *Call) *jen.Statement {
+	b.depth++
+	defer b.leave()
 	m, ok := methodOf(reflect.ValueOf(s), name)
 	if !ok {
 		panic("recipe: *Statement has no method " + name)
@@ -662,6 +814,8 @@ func (b *Builder) CallMethod(s *jen.Statement, name string, c *Call) *jen.Statem
 
 // CallGroup performs call c through the *Group method `name` of g.
 func (b *Builder) CallGroup(g *jen.Group, name string, c *Call) *jen.Statement {
+	b.depth++
+	defer b.leave()
 	m, ok := methodOf(reflect.ValueOf(g), name)
 	if !ok {
 		panic("recipe: *Group has no method " + name)
